@@ -20,7 +20,7 @@ CHECKS = {
          'Seeded play histories of 1..400 packets (keep-alive ids at every VarInt/Long boundary incl. negatives, position-and-look, unknown ids, known-unhandled packets, pauses; bursts crossing the 50-read and 300-write batches; 0/5/320/650 user-queued packets) ending in a play disconnect, compression on/off, optional segmentation, optional slow early listener, 25% kick cases (server closes right after the disconnect packet, send-error fault), protocol sampled with layout boundaries over-weighted (thorough: all collision-free supported versions x4). Oracle: answers equal sent ids in order exactly once, teleports acknowledged per version, deliveries in order with unknown ids generic, FIN after all answers, exit callback once, no error.',
          'DESIGN.md 3/C11'),
  'C13': ('exploration', 'seeded listener-configuration x history search under deterministic simulation against a reference dispatcher over the global event order',
-         'Seeded configurations of 0..10 listeners over the four classes with 0..3 type filters from a hierarchy (abstract super-classes, unrelated classes), random IgnorePacket subsets (also for the set-compression packet, with a server that keeps the old framing when the reaction is suppressed), incoming listeners that write a forced packet during dispatch, x login and play packet histories x queued/forced user writes. A reference dispatcher predicts the global incoming call log and, per outgoing packet, early calls / written? / ordinary calls; byte offsets of the client stream at each callback decide before/after-the-write; the built-in reaction is placed between the stages through its observable effects.',
+         'Seeded configurations of 0..10 listeners over the four classes with 0..3 type filters from a hierarchy (abstract super-classes, unrelated classes), random IgnorePacket subsets (also for the set-compression packet, with a server that keeps the old framing when the reaction is suppressed), incoming listeners that write a forced packet during dispatch, x login and play packet histories x queued/forced user writes. A reference dispatcher predicts the global incoming call log and, per outgoing packet, early calls / written? / ordinary calls; byte offsets of the client stream at each callback decide before/after-the-write; the built-in reaction is placed between the stages through its observable effects. In the concurrent-registration family the user thread queues 2 or 5 packets just before its own disconnect(): whichever thread flushes them, each passes the early outgoing listeners once in order, the ignored one stays off the wire and the ordinary listeners see exactly the written ones.',
          'DESIGN.md 3/C13'),
  'C14': ('fault_enumeration', 'enumeration of fault origins x handler chains x final-handler modes under deterministic simulation against a reference try/except model',
          '15 fault origins (listeners in status/login/play, login-disconnect and status-JSON reactions, five malformed-body decoder faults, outgoing listener in the write phase, exit callback) x 5 final-handler modes x all chains of length <= 2 over 7 handler kinds are enumerated (4275 cases); longer chains with random filters, early flags and return/raise/reconnect behaviour are sampled; varied gaps before the disconnect packet of the server, slow and persistently failing listeners. Oracle: handler call sequence with exception identity, recorded exception/exc_info, re-raise from the thread (captured by the scheduler), connection closed unless reconnected, and a fresh connect() afterwards.',
@@ -38,7 +38,7 @@ CHECKS = {
          'Every prefix length 0..N of the server stream of each reference conversation (status call, status-then-login on either connection, login with compression, with encryption, with both, plain play; 2 (quick) / all boundary protocol versions (thorough), incl. a default version outside the allowed set) is executed, followed by FIN, by RST, and once more in a process whose descriptor numbers lie beyond the range of select() (a failing system call: ValueError); the run must end within a bounded number of I/O operations after EOF (spin detector, deadlock detector on the virtual clock), report an error or take the documented status fallback, and deliver only completely sent packets. Exhaustive over the listed conversations, not over all conversations.',
          'DESIGN.md 3/C15'),
  'C16': ('exploration', 'enumerated + seeded call histories x seeded schedule search under deterministic simulation, linearizability-style refusal windows',
-         'All single-thread histories of length <= 3 over {connect,status,disconnect,disconnect(immediate)} x 5 server line-ups are enumerated under several schedules each and under every placement of one forced context switch at I/O granularity; longer and two-thread histories with reconnecting listeners/handlers against accepting, refusing, disconnecting, cutting and resetting servers are sampled. Oracles over the global event order: disconnect never raises, I/O intervals of networking threads never overlap, refusal required/forbidden/either windows, accepted connect is usable (condition-based keep-alive probe), disconnect sticks, no stale-thread action on a newer session, sessions started from listeners/handlers come up, bounded termination. Servers may compress, stall, linger in callbacks; hand-over stress family. Three genuine defects are listed in known_findings.json.',
+         'All single-thread histories of length <= 3 over {connect,status,disconnect,disconnect(immediate)} x 5 server line-ups are enumerated under several schedules each and under every placement of one forced context switch at I/O granularity; longer and two-thread histories with reconnecting listeners/handlers against accepting, refusing, disconnecting, cutting and resetting servers are sampled. Oracles over the global event order: disconnect never raises, I/O intervals of networking threads never overlap, refusal required/forbidden/either windows, accepted connect is usable (condition-based keep-alive probe), disconnect sticks, no stale-thread action on a newer session, sessions started from listeners/handlers come up, a connect() from an exception handler is not refused when the failed thread is the only one alive and no hand-over is pending, bounded termination. Servers may compress, stall, linger in callbacks; hand-over stress family. Three genuine defects are listed in known_findings.json.',
          'DESIGN.md 3/C16'),
 }
 
